@@ -43,7 +43,7 @@ pub enum Step {
 #[derive(Clone, Debug, serde::Serialize, serde::Deserialize)]
 pub struct HistorySpec {
     pub fri: FriShape,
-    /// base pool: (kind, log_n) with kind in {"fib","pair0","pair1"}
+    /// base pool: (kind, log_n) with kind in {"fib","pair0".."pair3"} (pair2: row-local AIR, no next-row opening; pair3: periodic column)
     pub base: Vec<(String, usize)>,
     pub steps: Vec<Step>,
     pub seed: u64,
@@ -77,13 +77,13 @@ macro_rules! dispatch_input {
 
 pub fn gen_history(rng: &mut Rng, tier_steps: usize) -> HistorySpec {
     let fri = FriShape { log_blowup: *rng.pick(&[1, 2]), log_final_poly_len: 0, max_log_arity: *rng.pick(&[1, 2, 3]), num_queries: *rng.pick(&[1, 2]), commit_pow_bits: 0, query_pow_bits: *rng.pick(&[0, 2]), cap_height: 0 };
-    let base = vec![("fib".to_string(), 3), ("fib".to_string(), 5), ("pair0".to_string(), 3), ("pair1".to_string(), 3)];
+    let base = vec![("fib".to_string(), 3), ("fib".to_string(), 5), ("pair0".to_string(), 3), ("pair1".to_string(), 3), ("pair2".to_string(), 3), ("pair3".to_string(), 4)];
     let n = rng.range(3, tier_steps);
     let mut steps = Vec::new();
     let mut pool = base.len();
     let mut max_depth_items = 0; // keep layer depth small: prefer base items
     for _ in 0..n {
-        let pick = |rng: &mut Rng, pool: usize| if rng.chance(3, 4) { rng.usize_below(4.min(pool)) } else { rng.usize_below(pool) };
+        let pick = |rng: &mut Rng, pool: usize| if rng.chance(3, 4) { rng.usize_below(6.min(pool)) } else { rng.usize_below(pool) };
         let mode = match rng.below(4) {
             0 => CacheMode::None,
             1 => CacheMode::Build(rng.usize_below(2)),
@@ -136,6 +136,16 @@ macro_rules! c17_universe {
                 Fib(p3_uni_stark::Proof<Cfg>, Vec<F>),
                 Pair(p3_uni_stark::Proof<Cfg>, PairAir),
                 Batch(RecursionOutput<Cfg>),
+            }
+
+            impl Item {
+                fn label(&self) -> String {
+                    match self {
+                        Item::Fib(..) => "fib".into(),
+                        Item::Pair(_, a) => format!("pair{}", a.variant),
+                        Item::Batch(_) => "layer".into(),
+                    }
+                }
             }
 
             fn backend() -> Backend {
@@ -297,7 +307,7 @@ macro_rules! c17_universe {
                             Item::Fib(proof, pis)
                         }
                         k => {
-                            let air = PairAir { variant: if k == "pair0" { 0 } else { 1 } };
+                            let air = PairAir { variant: k.strip_prefix("pair").and_then(|d| d.parse().ok()).unwrap_or(1) };
                             let proof = p3_uni_stark::prove(&cfg, &air, air.trace(*log_n, h.seed), &[]);
                             Item::Pair(proof, air)
                         }
@@ -322,6 +332,7 @@ macro_rules! c17_universe {
                             if *i >= pool.len() {
                                 continue;
                             }
+                            out.count(&format!("next_input_{}", pool[*i].label()));
                             let (t, c, s, _dig, counters) = do_next(&cfg, &p, &pool[*i], mode, &mut next_slots);
                             (t, c, s, "next", counters)
                         }
